@@ -250,6 +250,40 @@ func runC11(p *Program, r *Result) {
 				sortCall = c
 			}
 		}
+		// the labels are a merge (of a helper's exits, after splicing) each of whose values is nil
+		// or was sorted on its own branch
+		sortedMerge := false
+		if lph, isPhi := labelsV.(*ssa.Phi); isPhi && sortCall == nil {
+			nSorted := 0
+			sortedMerge = true
+			for k, e := range lph.Edges {
+				if isNilConst(e) {
+					continue
+				}
+				pred := lph.Block().Preds[k]
+				found := false
+				for _, c := range callsIn(enc) {
+					n := calleeName(c.Common())
+					if !(n == "sort.Strings" || n == "slices.Sort" || strings.HasPrefix(n, "slices.Sort[") || n == "(sort.StringSlice).Sort") || len(c.Common().Args) != 1 {
+						continue
+					}
+					if a := stripConv(c.Common().Args[0]); (a == stripConv(e) || tb.Term(a).Key() == tb.Term(e).Key()) && (c.Block() == pred || c.Block().Dominates(pred)) {
+						found = true
+					}
+				}
+				if found {
+					nSorted++
+				} else {
+					sortedMerge = false
+				}
+			}
+			if nSorted == 0 {
+				sortedMerge = false
+			}
+		}
+		if sortedMerge {
+			r.OK(enc.String(), "sort:labels", "", "every non-nil value merged into this recipient's labels was sorted on its own branch")
+		}
 		ok := sortCall != nil
 		// sortedAt: the sort has run on every way to block b, or was skipped only because the set
 		// has fewer than two elements (`if len(l) > 1 { sort.Strings(l) }`): such a set is sorted
@@ -310,7 +344,9 @@ func runC11(p *Program, r *Result) {
 		if sortCall != nil {
 			pos = r.pos(sortCall)
 		}
-		r.Check(ok, enc.String(), "sort:labels", pos, "sort.Strings(l) dominates every use of l", "this recipient's labels are used (stored as reference or compared) on a path without having been sorted: equal sets in different orders would be refused")
+		if !sortedMerge {
+			r.Check(ok, enc.String(), "sort:labels", pos, "sort.Strings(l) dominates every use of l", "this recipient's labels are used (stored as reference or compared) on a path without having been sorted: equal sets in different orders would be refused")
+		}
 	}
 
 	// ---- R11.3
@@ -450,6 +486,7 @@ func runC11(p *Program, r *Result) {
 				lterm = c.Args[0]
 			}
 		}
+		lterm = stripLabelCopies(lterm, 0)
 		lt := short(lterm.String())
 		wantL := specRecipe(r, "Encrypt.labels")
 		r.Check(lt == wantL, enc.String(), "labels-branch", "", lt, "this recipient's labels are "+lt+"\n   want "+wantL)
@@ -518,6 +555,28 @@ func checkPluginLabels(p *Program, r *Result) {
 				_, isLabels := findFact(facts, func(a Atom) bool {
 					return a.Kind == "cmp" && a.Op == "==" && a.Y.S == `"labels"` && strings.HasSuffix(short(a.X.String()), ".Type)")
 				})
+				byFlag := false
+				if !isNil {
+					// the same refusal kept by a flag: !seen, where seen starts false and is true on
+					// every way round the loop that passed this store
+					_, isNil = findFact(facts, func(a Atom) bool {
+						if a.Kind != "bool" || a.Pol || a.X == nil {
+							return false
+						}
+						ph, ok := a.X.V.(*ssa.Phi)
+						return ok && flagSetWith(ph, st.Block())
+					})
+					byFlag = isNil
+				}
+				// a full copy of the arguments is the same set; where the refusal of a repeat tests
+				// labels == nil the copy must not be nil for an empty set: append([]string{}, x...)
+				// is not, append([]string(nil), x...) is
+				if byFlag {
+					val = short(stripLabelCopies(ptb.Term(st.Val), 0).String())
+				}
+				if strings.HasPrefix(val, "Concat(List(), ") && strings.HasSuffix(val, ")") {
+					val = strings.TrimSuffix(strings.TrimPrefix(val, "Concat(List(), "), ")")
+				}
 				okv := strings.HasPrefix(val, "Field((*plugin.ClientUI).readStanza(") && strings.HasSuffix(val, ".Args)")
 				r.Check(okv && isNil && isLabels, pw.String(), "store:labels", r.pos(st), "labels = s.Args under s.Type == \"labels\" && labels == nil",
 					"labels is set to "+val+" without the guards s.Type == \"labels\" and labels == nil (a repeated labels message must be an error, and only the labels message defines the set)")
@@ -600,4 +659,82 @@ func isLabelComparison(p *Program, c ssa.CallInstruction) bool {
 		}
 	}
 	return true
+}
+
+// stripLabelCopies: a full copy of a label set, sorted or not, is the same set of labels:
+// sort.Sorted(Copy(x, len(x))) and append([]string(nil), x...) stand for x, also inside a merge.
+func stripLabelCopies(t *Term, d int) *Term {
+	if t == nil || d > 3 {
+		return t
+	}
+	switch {
+	case t.Op == "Call" && t.S == "sort.Sorted" && len(t.Args) == 1:
+		if c := t.Args[0]; c.Op == "Copy" && len(c.Args) == 2 && isLenTerm(c.Args[1]) && len(c.Args[1].Args) == 1 && c.Args[1].Args[0].String() == c.Args[0].String() {
+			return stripLabelCopies(c.Args[0], d+1)
+		}
+		if c := t.Args[0]; c.Op == "Concat" && len(c.Args) == 1 {
+			return stripLabelCopies(c.Args[0], d+1)
+		}
+	case t.Op == "Concat" && len(t.Args) == 1:
+		return stripLabelCopies(t.Args[0], d+1)
+	case t.Op == "Phi":
+		n := *t
+		n.Args = nil
+		for _, a := range t.Args {
+			n.Args = append(n.Args, stripLabelCopies(a, d+1))
+		}
+		return &n
+	}
+	return t
+}
+
+// flagSetWith: ph is a boolean carried round a loop (a merge at a loop header) that is false on
+// entry, and on every way back to the header that passed block b it is the constant true; on the
+// other ways it keeps its value or is true.
+func flagSetWith(ph *ssa.Phi, b *ssa.BasicBlock) bool {
+	hdr := ph.Block()
+	if len(ph.Edges) < 2 {
+		return false
+	}
+	isTrue := func(v ssa.Value) bool {
+		c, ok := v.(*ssa.Const)
+		return ok && c.Value != nil && c.Value.ExactString() == "true"
+	}
+	isFalse := func(v ssa.Value) bool {
+		c, ok := v.(*ssa.Const)
+		return ok && c.Value != nil && c.Value.ExactString() == "false"
+	}
+	var okEdge func(v ssa.Value, pred *ssa.BasicBlock, d int) bool
+	okEdge = func(v ssa.Value, pred *ssa.BasicBlock, d int) bool {
+		passed := pred == b || b.Dominates(pred)
+		if isTrue(v) {
+			return true
+		}
+		if p2, isPhi := v.(*ssa.Phi); isPhi && p2 != ph && d < 3 {
+			for k, e := range p2.Edges {
+				if !okEdge(e, p2.Block().Preds[k], d+1) {
+					return false
+				}
+			}
+			return true
+		}
+		return v == ssa.Value(ph) && !passed
+	}
+	nEntry, nBack := 0, 0
+	for k, e := range ph.Edges {
+		pred := hdr.Preds[k]
+		if !hdr.Dominates(pred) {
+			// entry edge
+			if !isFalse(e) {
+				return false
+			}
+			nEntry++
+			continue
+		}
+		nBack++
+		if !okEdge(e, pred, 0) {
+			return false
+		}
+	}
+	return nEntry > 0 && nBack > 0 && hdr.Dominates(b)
 }
